@@ -239,7 +239,7 @@ def run(ck, m):
     # ---- (e) ---------------------------------------------------------------------------
     ib = increment_fn(m)
     adds = [(bi, t) for bi, t in ib.calls() if callee_decl(t) in ('std::num::checked_add', 'std::num::wrapping_add', 'std::num::saturating_add')
-            and 'i32' in t['f'].get('dargs', '')]
+            and any(('::<impl %s>::' % ty) in t['f'].get('dargs', '') or ty in t['f'].get('dargs', '') for ty in ('i8', 'i16', 'i32', 'i64', 'i128', 'isize'))]
     bins = [s for bl in ib.blocks for s in bl['s'] if s['k'] == 'assign' and s['r']['k'] == 'bin' and s['r']['op'].startswith('Add')]
     oke = False
     whye = 'no addition found in the increment'
